@@ -228,7 +228,7 @@ fn main() {
     }
     let spec = PropSpec {
         id: "C11",
-        rule_text: "tuples (a, b, m) for every limb count N = 1..16 (slice-level functions) and for 18 widths with LIMBS 1..9, aligned and not (Uint methods): m odd >= 3 with top limb from {0 (short modulus), 1, 2^62-2, 2^62-1, 2^62, 2^62+1, 2^63-2, 2^63-1, 2^63, 2^63+1, u64::MAX-1, u64::MAX, floor(2^64/3)+-{0..3}, 2*floor(2^64/3)+-{0..3}, dense in [2^62,2^63), alphabet} and low limbs that are drawn from the alphabet, all ones, or all ones above a lowest limb of 1 / a drawn lowest limb; a, b from {0, 1, 2, m-1, m-2, (m+-1)/2, R mod m, R^2 mod m, alphabet mod m}; inv = -m^-1 mod 2^64 from the harness's own Newton iteration; complete enumerations over limb alphabets (rule redc_limb_alphabet: N = 2, 3 over {0,1,2,2^63-1,2^63,2^63+1,MAX-1,MAX}, N = 4 over {0,1,2^63,MAX-1,MAX}, N = 5 over {1,2^63,MAX-1,MAX}; all moduli with 6-8 top limbs, every a < m, b in {a, m-1, reversed a}). Oracle: result < m and result * 2^(64N) = a*b (mod m) in num-bigint. Non-trivial: a, b != 0 and a*b >= m; hook counters report extra-carry / final-subtraction paths. Distinct by inputs.",
+        rule_text: "tuples (a, b, m) for every limb count N = 1..16 and N = 17, 24, 32, 33, 40 (slice-level functions) and for 18 widths with LIMBS 1..9, aligned and not (Uint methods): m odd >= 3 with top limb from {0 (short modulus), 1, 2^62-2, 2^62-1, 2^62, 2^62+1, 2^63-2, 2^63-1, 2^63, 2^63+1, u64::MAX-1, u64::MAX, floor(2^64/3)+-{0..3}, 2*floor(2^64/3)+-{0..3}, dense in [2^62,2^63), alphabet} and low limbs that are drawn from the alphabet, all ones, or all ones above a lowest limb of 1 / a drawn lowest limb; a, b from {0, 1, 2, m-1, m-2, (m+-1)/2, R mod m, R^2 mod m, alphabet mod m}; inv = -m^-1 mod 2^64 from the harness's own Newton iteration; complete enumerations over limb alphabets (rule redc_limb_alphabet: N = 2, 3 over {0,1,2,2^63-1,2^63,2^63+1,MAX-1,MAX}, N = 4 over {0,1,2^63,MAX-1,MAX}, N = 5 over {1,2^63,MAX-1,MAX}; all moduli with 6-8 top limbs, every a < m, b in {a, m-1, reversed a}). Oracle: result < m and result * 2^(64N) = a*b (mod m) in num-bigint. Non-trivial: a, b != 0 and a*b >= m; hook counters report extra-carry / final-subtraction paths. Distinct by inputs.",
         assumptions: vec![
             "num-bigint arithmetic is correct (oracle)",
             "inputs satisfy the documented preconditions a, b < m, m odd, inv = -m^-1 mod 2^64",
@@ -239,6 +239,7 @@ fn main() {
         spec,
         |jobs, _| {
             reg_alg!(jobs, 10000; [1, 2, 3, 4, 5, 6, 7, 8, 9, 10, 11, 12, 13, 14, 15, 16]);
+            reg_alg!(jobs, 1500; [17, 24, 32, 33, 40]);
             reg_uint!(jobs, 6000; [2, 7, 63, 64, 65, 127, 128, 129, 190, 192, 255, 256, 257, 320, 384, 512, 535, 1024]);
             reg_alphabet!(jobs, 2, A8, [1, (1u64 << 62) - 1, 1u64 << 62, (1u64 << 63) - 1, 1u64 << 63, u64::MAX / 3, u64::MAX - 1, u64::MAX]);
             reg_alphabet!(jobs, 3, A8, [1, (1u64 << 62) - 1, 1u64 << 62, (1u64 << 63) - 1, 1u64 << 63, u64::MAX / 3, u64::MAX - 1, u64::MAX]);
